@@ -48,6 +48,7 @@ type vC03Sys struct {
 }
 
 func (s *vC03Sys) Reset() {
+	vResetGlobals()
 	s.idx = NewBM25SearchIndex()
 	s.docs = map[uint32]*vC03Doc{}
 	s.ever = map[uint32]bool{}
